@@ -103,3 +103,137 @@ def hsQuiescent (w : List Link) : Bool :=
   w.all (fun l => l.openA == l.openB && (!l.openA || (l.authA && l.authB)))
 
 end Election
+
+/-! ## Late dials (round 4)
+
+`hsInit` fixes the connection set before the run starts. Here connections are dialled at any
+time — before, between and after the handshakes of the others, also when a link is already up and
+ready: `DOp.dial c` appends a fresh, not yet authenticated link; `DOp.hs op` is a step of
+`hsStep` on the connections dialled so far (a step naming a connection that does not exist yet
+does nothing). -/
+
+namespace Election
+
+inductive DOp
+  | dial (c : Conn)
+  | hs (op : HOp)
+  deriving Repr, DecidableEq
+
+/-- state: the connections dialled so far, and their links -/
+def dStep (o : Ordering) (s : List Conn × List Link) : DOp → List Conn × List Link
+  | .dial c => (s.1 ++ [c], s.2 ++ [{ c := c }])
+  | .hs op => (s.1, hsStep o s.2 op)
+
+def dRun (o : Ordering) (ops : List DOp) : List Conn × List Link :=
+  ops.foldl (dStep o) ([], [])
+
+/-- the connections an op sequence dials, in order -/
+def dials : List DOp → List Conn
+  | [] => []
+  | .dial c :: rest => c :: dials rest
+  | .hs _ :: rest => dials rest
+
+end Election
+
+/-! ## Connections that go away for reasons outside the election (round 4)
+
+`FOp.failA a` / `FOp.failB b`: node A's / node B's end of a connection closes at ANY time for a
+reason that is not an election result — the transport fails, the peer process is gone, or the
+session gives up by itself (`node_session.rs`: the pre-authentication `CheckSession` failed or
+timed out ⇒ `Close`; the post-authentication `CheckSession` answered with an error ⇒
+`myself.stop("session_election_lost")`). The other node notices through `seeA` / `seeB`.
+Together with late dials (`dial`) and the election steps (`hs`). -/
+
+namespace Election
+
+inductive FOp
+  | dial (c : Conn)
+  | hs (op : HOp)
+  | failA (a : Nat)
+  | failB (b : Nat)
+  deriving Repr, DecidableEq
+
+def fStep (o : Ordering) (w : List Link) : FOp → List Link
+  | .dial c => w ++ [{ c := c }]
+  | .hs op => hsStep o w op
+  | .failA a => w.map (fun l => if l.c.idA == a then { l with openA := false } else l)
+  | .failB b => w.map (fun l => if l.c.idB == b then { l with openB := false } else l)
+
+def fRun (o : Ordering) (ops : List FOp) : List Link := ops.foldl (fStep o) []
+
+def fDials : List FOp → List Conn
+  | [] => []
+  | .dial c :: rest => c :: fDials rest
+  | _ :: rest => fDials rest
+
+end Election
+
+/-! ## `node_session_ready` events (round 4)
+
+`ROp.readyA a`: node A's `NodeServer` handles `ConnectionReady(a)` (node.rs): the subscribers get
+`node_session_ready` iff `is_elected(a)` — the session is authenticated, still there, and elected
+among the authenticated sessions of the peer. The event is appended to node A's log; the world is
+not changed. All other ops are those of `fStep` (late dials, election steps, failing ends). -/
+
+namespace Election
+
+inductive ROp
+  | f (op : FOp)
+  | readyA (a : Nat)
+  | readyB (b : Nat)
+  deriving Repr, DecidableEq
+
+structure RState where
+  w : List Link := []
+  logA : List Nat := []
+  logB : List Nat := []
+  deriving Repr
+
+def rStep (o : Ordering) (s : RState) : ROp → RState
+  | .f op => { s with w := fStep o s.w op }
+  | .readyA a =>
+    if s.w.any (fun l => l.c.idA == a && l.authA && l.openA) && (electA o (activeA s.w)).contains a
+    then { s with logA := s.logA ++ [a] } else s
+  | .readyB b =>
+    if s.w.any (fun l => l.c.idB == b && l.authB && l.openB) && (electB o (activeB s.w)).contains b
+    then { s with logB := s.logB ++ [b] } else s
+
+def rRun (o : Ordering) (ops : List ROp) : RState := ops.foldl (rStep o) {}
+
+def rProj : List ROp → List FOp
+  | [] => []
+  | .f op :: rest => op :: rProj rest
+  | _ :: rest => rProj rest
+
+/-- sessions reported ready on A / B that are still open there -/
+def liveReadyA (s : RState) : List Nat := s.logA.filter (fun a => s.w.any (fun l => l.c.idA == a && l.openA))
+def liveReadyB (s : RState) : List Nat := s.logB.filter (fun b => s.w.any (fun l => l.c.idB == b && l.openB))
+
+end Election
+
+/-! ## the pre-authentication check as the session performs it (round 4)
+
+`stepPreA` is `check_candidate`. The session does not call that: it calls `CheckSession` with the
+peer's name and its own nonce (`check_session`), which first looks the candidate up by (name, nonce)
+among ALL registered sessions and answers `NoOtherConnection` (carry on) when more than one matches.
+`stepPreSA` is that: the `preA` step when this connection's nonce is unique among the connections
+open on A, nothing otherwise. -/
+
+namespace Election
+
+/-- ids of the sessions open on A / B whose nonce is `n` (all sessions here carry the peer's name) -/
+def matchA (w : List Link) (n : Nat) : List Nat :=
+  (w.filter (fun l => l.openA && nz l.c.nonce == nz n)).map (·.c.idA)
+def matchB (w : List Link) (n : Nat) : List Nat :=
+  (w.filter (fun l => l.openB && nz l.c.nonce == nz n)).map (·.c.idB)
+
+def stepPreSA (o : Ordering) (w : List Link) (a : Nat) : List Link :=
+  match w.find? (fun l => l.c.idA == a) with
+  | some l => if (matchA w l.c.nonce).length == 1 then stepPreA o w a else w
+  | none => w
+def stepPreSB (o : Ordering) (w : List Link) (b : Nat) : List Link :=
+  match w.find? (fun l => l.c.idB == b) with
+  | some l => if (matchB w l.c.nonce).length == 1 then stepPreB o w b else w
+  | none => w
+
+end Election
